@@ -26,6 +26,7 @@ type Val struct {
 	GoT   types.Type
 	NilFlag string // for static pointers that may be nil: SMT Bool "is nil" ("" = never nil)
 	Elems []Val // statically known elements (slices over local arrays: variadic arguments, composite literals)
+	CoinsOf string // a []Coin obtained by converting this Coins value (coins... arguments)
 }
 
 type Closure struct {
